@@ -1,5 +1,6 @@
 import ShellOp.Util
 import ShellOp.Model.Retry
+import ShellOp.Model.HookOutput
 import ShellOp.Generated.Facts
 /-! Line-protocol suite for C04 (retry / back-off / allowFailure). Core-only.
 
@@ -19,6 +20,17 @@ end q=<q> ok=<0|1>                      → status=<success|fail> fc=<n> sleep=<
 oracle begin q=<q> task=<id> gap=<ns> ctxs=…  → retry of a failed task: same task, gap ≥ its back-off ≥ initial, the contexts of the failed run shown again (up to group compaction)
 oracle nocombine q=<q> ctxs=… queue=<ids>  → (C07.6) ungrouped Synchronization head: own contexts, queue untouched
 oracle end q=<q> ok=… task=<id> ctxs=… sleep=<ns> after=<id>,<af>,<ctxs>|…   → the property clauses
+```
+Instead of `ok=<0|1>` the `end` / `oracle end` lines may carry what the hook left behind:
+`exit=<code> metrics=<hex|-> patch=<hex|-> papply=<0|1>` (file texts as hex bytes; `papply` = the
+operations of the patch file, if it is parsable, can be applied to the cluster). Whether that is a
+failed run is then decided here, from the texts (`HookOutput.hookOk`): exit code 0, the metrics file a
+well-formed stream of valid metric operations, the patch file a well-formed stream of valid
+operation specs. A patch text this driver cannot classify is answered `bad-op`.
+Part 3 — the parsers alone:
+```
+metricsfile hex=<hex>                   → ok n=<operations> | invalid | err
+patchfile hex=<hex>                     → ok | err | undecided
 ```
 -/
 namespace ShellOp.Drv.C04
@@ -77,6 +89,24 @@ def bool? : String → Option Bool
 
 def b01 (b : Bool) : String := if b then "1" else "0"
 
+def hexVal (c : Char) : Option Nat :=
+  if c.isDigit then some (c.toNat - '0'.toNat)
+  else if 'a' ≤ c && c ≤ 'f' then some (c.toNat - 'a'.toNat + 10)
+  else none
+
+def unhexL : List Char → Option (List Char)
+  | [] => some []
+  | a :: b :: r => do
+    let x ← hexVal a
+    let y ← hexVal b
+    let t ← unhexL r
+    some (Char.ofNat (16 * x + y) :: t)
+  | _ => none
+
+/-- File text from its hex bytes (`-` = empty). -/
+def unhex (s : String) : Option (List Char) :=
+  if s == "-" || s == "" then some [] else unhexL s.toList
+
 def natKv (key : String) (rest : List String) (dflt : Nat) : Option Nat :=
   match kv? key rest with
   | none => some dflt
@@ -103,6 +133,19 @@ def parseAfter (s : String) : Option (List Task) :=
       | [id, af, ctxs] => do
         some { id := ← id.toNat?, allowFailure := ← bool? af, ctxs := ← parseCtxs ctxs }
       | _ => none
+
+/-- The outcome of a hook run as the line states it: `ok=<0|1>`, or decided from the exit code and
+the output files (`none`: malformed line or a patch text outside the decided domain). -/
+def outcome? (rest : List String) : Option Bool :=
+  match kv? "metrics" rest with
+  | none => bool? ((kv? "ok" rest).getD "1")
+  | some m => do
+    let exit ← natKv "exit" rest 0
+    let mt ← unhex m
+    let pt ← unhex ((kv? "patch" rest).getD "-")
+    let papply ← bool? ((kv? "papply" rest).getD "1")
+    let pv ← HookOutput.patchVerdict pt
+    some (HookOutput.hookOk exit mt (pv && (papply || (HookOutput.skipWs pt).isEmpty)))
 
 /-- Items of the queue as the code sees them while a hook is running. -/
 def curItems (cfg : Cfg) (q : QSt) : List Task :=
@@ -199,8 +242,23 @@ def step (st : St) (toks : List String) : St × String :=
           match h.ran with
           | none => (st', s!"norun task={t.id} queue={showIds h.items}")
           | some cs => (st', s!"exec task={t.id} hook={t.hook} ctxs={showCtxs (hookViewV (st.cfg.version t.hook) cs)} queue={showIds h.items}")
+  | "metricsfile" :: rest =>
+    match (kv? "hex" rest).bind unhex with
+    | none => (st, "bad-op")
+    | some t =>
+      match HookOutput.fromReader t with
+      | none => (st, "err")
+      | some ops => if ops.all HookOutput.validOp then (st, s!"ok n={ops.length}") else (st, "invalid")
+  | "patchfile" :: rest =>
+    match (kv? "hex" rest).bind unhex with
+    | none => (st, "bad-op")
+    | some t =>
+      match HookOutput.patchVerdict t with
+      | some true => (st, "ok")
+      | some false => (st, "err")
+      | none => (st, "undecided")
   | "end" :: rest =>
-    match natKv "q" rest 0, bool? ((kv? "ok" rest).getD "1") with
+    match natKv "q" rest 0, outcome? rest with
     | some qn, some ok =>
       let q := st.q qn
       match q.running with
@@ -252,7 +310,7 @@ def step (st : St) (toks : List String) : St × String :=
       | none => (st, "bad-op not-running")
     | _, _, _ => (st, "bad-op")
   | "oracle" :: "end" :: rest =>
-    match natKv "q" rest 0, bool? ((kv? "ok" rest).getD "1"), natKv "task" rest 0,
+    match natKv "q" rest 0, outcome? rest, natKv "task" rest 0,
           parseCtxs ((kv? "ctxs" rest).getD "-"), natKv "sleep" rest 0, parseAfter ((kv? "after" rest).getD "-"),
           natKv "s0" rest 0 with
     | some qn, some ok, some task, some ctxs, some sleep, some after, some _ =>
